@@ -2,13 +2,22 @@
  * on discrete logarithms of the enumerated synthetic curve.
  *
  * Build parameters: CURVE, CV_ALGO_GOST (else ECDSA), MODE, ENDIAN (0 = *_be, 1 = *_le entry points), HLEN (hash
- * bytes: 1 = field size, 2 = longer than the field), KF_* guards.
+ * bytes: 1 = field size, 2 and 3 = longer than the field).
  * Real code: ecdsa_sign(_be/_le), ecdsa_verify(_be/_le), ecdsa_verify_priv_key(_be/_le), ecdsa_pub_key_import,
  * bn import/export.  Stubs: field/order arithmetic (spec_bn.h, incl. bn_mod_reduce), the three scalar
  * multiplication entry points (ec_mult_spec.h = the contract C02 establishes).
  *
  * Standard side (FIPS 186-4 6.4 / SEC1 4.1.3-4.1.4; GOST R 34.10-2012 6.1-6.2), Q = dq * G0, G = H * G0:
- *   e  = integer of the leftmost min(HLEN, field bytes) bytes of the hash, reduced mod n   (GOST: e = 0 -> 1)
+ *   e  = H mod n (GOST: e = 0 -> 1), where H is the integer the entry point reads from the hash buffer under the
+ *        library's byte-granular truncation rule, B = field bytes = (curve->m + 7) / 8:
+ *          *_be : H = big-endian integer of hash[0 .. min(HLEN, B))      = the LEFTMOST (most significant) bytes,
+ *                 which for bitlen(n) = 8 B is FIPS 186-4 bits2int;
+ *          *_le : H = little-endian integer of hash[0 .. min(HLEN, B))   = sum hash[i] * 256^i, i < min(HLEN, B):
+ *                 the FIRST bytes of the buffer, i.e. the LEAST significant bytes of the little-endian number;
+ *                 hash[B .. HLEN) is ignored.  No standard defines a hash longer than the field for a
+ *                 little-endian interface (GOST R 34.10 has hash length = field length); this is the rule
+ *                 ecdsa_sign_le / ecdsa_verify_le / ecdsa_verify_priv_key_le implement
+ *                 (`bn_import_le_bin(.., hash, MIN(hash_size, bytes))`), and all three must agree on it.
  *   ECDSA  verify: 1 <= r,s <= n-1;  w = s^-1;  R = (e w) G + (r w) Q;  R != O;  x(R) mod n == r
  *   GOST   verify: 1 <= r,s <= n-1;  v = e^-1;  R = (s v) G + (-r v) Q; R != O;  x(R) mod n == r
  *   ECDSA  sign  : R = k G; r = x(R) mod n != 0; s = k^-1 (e + d r) mod n != 0
@@ -58,14 +67,22 @@ struct in_s {
 };
 #include "verif_in.h"
 
-/* the number the library and the standard read from the hash bytes */
+/* H: the number read from the hash buffer (truncation rule in the header comment), for any field size */
 static uint32_t
 hash_int(void) {
+	uint32_t h = 0;
+	size_t take = ((HLEN < CV_BYTES) ? HLEN : CV_BYTES);
+
+	for (size_t i = 0; i < 3; i ++) {
+		if (i >= take)
+			break;
 #if ENDIAN == 0
-	return (IN.hash[0]);			/* leftmost byte = most significant; longer hashes are cut to the field size */
+		h = ((h << 8) | IN.hash[i]);			/* leftmost bytes, most significant first */
 #else
-	return (IN.hash[0]);			/* *_le: first byte = least significant; only HLEN == 1 is run */
+		h |= (((uint32_t)IN.hash[i]) << (8 * i));	/* first bytes, least significant first */
 #endif
+	}
+	return (h);
 }
 
 static uint32_t
@@ -146,6 +163,9 @@ body(void) {
 	if (IN.r >= CV_N || IN.s >= CV_N) V_WITNESS("out-of-range value");
 	if (hv >= CV_N) V_WITNESS("hash >= n");
 	if (0 == IN.r) V_WITNESS("r = 0");
+#if HLEN > 1
+	if (lib_ok && 0 != IN.hash[(HLEN - 1)]) V_WITNESS("accepted with non-zero bytes beyond the field size");
+#endif
 
 #elif MODE == M_VERIFY_PRIV
 	V_ASSUME(IN.d >= 1 && IN.d < CV_N);
@@ -187,6 +207,9 @@ body(void) {
 		V_ASSERT(0 == LCB_VERIFY_PRIV(&CV, hash, HLEN, or_, os, CV_BYTES, bd, CV_BYTES), "produced signature passes ecdsa_verify_priv_key");
 		V_WITNESS("signed");
 		if (hv >= CV_N) V_WITNESS("hash >= n signed");
+#if HLEN > 1
+		if (0 != IN.hash[(HLEN - 1)]) V_WITNESS("signed and verified with non-zero bytes beyond the field size");
+#endif
 	} else {
 		V_ASSERT(0 == kk || 0 == ridx || 0 == sr || 0 == ss, "signing fails only where the standard signer has to retry");
 		V_WITNESS("signing refused");
